@@ -3,9 +3,9 @@
    precision lists, coefficient vectors and cost tables are lists of any length; the cost function `cf`
    of C05_mps_cost_onehot is arbitrary.  `modified_vars true` is the repaired get_modified_vars;
    `modified_vars false` the unchanged one (Linear written under the convolution key names). *)
-From Coq Require Import String List Arith Bool QArith.
+From Coq Require Import String List Arith Bool QArith Lia.
 Import ListNotations.
-Require Import Plinio.Base.Qx Plinio.Model.MpsNet Plinio.Model.MpsCost Plinio.Proofs.MpsCost.
+Require Import Plinio.Base.Qx Plinio.Model.MpsNet Plinio.Model.MpsCost Plinio.Proofs.MpsCost Plinio.Model.MpsCostNet Plinio.Proofs.MpsCostNet.
 Open Scope Q_scope.
 
 (* sum_ij tin_i tw_j m_ij with one-hot tin, tw = m[ki][kw], for every table *)
@@ -97,6 +97,82 @@ Example C05_example :
   layer_cost (ops_bit LLin) (modified_vars false LLin (static_vars LLin 8 4 1 1 1 1) 5 4) [2; 4; 8] (onehotQ 1 3) [8; 2; 4] (onehotQ 0 3) == 8 * 4 * 8 * 4.
 Proof. repeat split; vm_compute; reflexivity. Qed.
 
+(* ------------------------------------------------------------------ network level (Model/MpsCostNet.v)
+   mps_net_cost = sum over the nodes of the IR of the layer costs, the effective input features of every layer
+   being propagated over the node list the way the code does it (intended = false) or by alive-channel masks
+   (intended = true).  All statements: every node list, every coefficient table. *)
+
+(* per-layer search, one-hot coefficients in every layer: network cost = sum of own weights x selected bits *)
+Theorem C05_net_cost_params_exact : forall net lays intended ki kw, onehot_layers net lays ki kw ->
+  mps_net_cost net lays params_bit intended
+  == qsum (map (node_bits (fun t kh kw' _ _ ein eout => weights_of t kh kw' ein eout) net lays intended ki kw false) (seq 0 (length net))).
+Proof. exact net_cost_params_exact. Qed.
+Theorem C05_net_cost_ops_exact : forall net lays intended ki kw, onehot_layers net lays ki kw ->
+  mps_net_cost net lays ops_bit intended
+  == qsum (map (node_bits (fun t kh kw' oh ow ein eout => macs_of t kh kw' oh ow ein eout) net lays intended ki kw true) (seq 0 (length net))).
+Proof. exact net_cost_ops_exact. Qed.
+(* per-channel search without the 0-bit option: sum over layers of (weights per channel) x sum_j channels_j x bits_j *)
+Theorem C05_net_cost_params_exact_perchannel : forall net lays intended ki, perchannel_layers net lays ki ->
+  mps_net_cost net lays params_bit intended == qsum (map (node_pc net lays intended ki false) (seq 0 (length net))).
+Proof. exact net_cost_params_exact_perchannel. Qed.
+Theorem C05_net_cost_ops_exact_perchannel : forall net lays intended ki, perchannel_layers net lays ki ->
+  mps_net_cost net lays ops_bit intended == qsum (map (node_pc net lays intended ki true) (seq 0 (length net))).
+Proof. exact net_cost_ops_exact_perchannel. Qed.
+
+(* what the code shows a consumer reached from the features-defining layer p through ReLU / pooling / flatten
+   (`feeds`, multiplier m): m x (own effective output features of p) *)
+Theorem C05_ein_feeds : forall net lays i nd s p m, wf net = true ->
+  nth_error net i = Some nd -> first_src nd = Some s -> feeds net p s m ->
+  ein_of net lays false s == m * own_out net lays p.
+Proof. exact ein_feeds. Qed.
+(* hence pruning channels of p lowers what any consumer is shown, and its params_bit / ops_bit entries *)
+Theorem C05_net_producer_pruning_lowers_consumer : forall net lays lays' i nd s p m, wf net = true ->
+  nth_error net i = Some nd -> first_src nd = Some s -> feeds net p s m -> 0 < m ->
+  own_out net lays' p < own_out net lays p ->
+  ein_of net lays' false s < ein_of net lays false s.
+Proof. exact net_producer_pruning_lowers_consumer. Qed.
+Theorem C05_net_producer_pruning_lowers_consumer_cost : forall net lays lays' i nd s p m t cin cout kh kw oh ow eout ip wp tw,
+  wf net = true -> nth_error net i = Some nd -> first_src nd = Some s -> feeds net p s m -> 0 < m ->
+  own_out net lays' p < own_out net lays p -> t <> LDw ->
+  0 < kh -> 0 < kw -> 0 < oh -> 0 < ow -> 0 < eout -> 0 < wp -> 0 < ip ->
+  entry (params_bit t) (modified_vars true t (static_vars t cin cout kh kw oh ow) (ein_of net lays' false s) eout) ip wp tw
+  < entry (params_bit t) (modified_vars true t (static_vars t cin cout kh kw oh ow) (ein_of net lays false s) eout) ip wp tw /\
+  entry (ops_bit t) (modified_vars true t (static_vars t cin cout kh kw oh ow) (ein_of net lays' false s) eout) ip wp tw
+  < entry (ops_bit t) (modified_vars true t (static_vars t cin cout kh kw oh ow) (ein_of net lays false s) eout) ip wp tw.
+Proof. exact net_producer_pruning_lowers_consumer_cost. Qed.
+(* FULL STATEMENT (property): the same for chains through a depthwise layer.  Refuted for the code as it is (the
+   guard of `feeds` excludes exactly these chains): a depthwise layer with its own selector, or in the network-input
+   group, prunes channels but its consumer is shown the same count; the mask propagation (intended) lowers it *)
+Theorem C05_net_pruning_behind_depthwise_refuted : exists net lays lays' dw c s,
+  wf net = true /\ nth_error net dw = Some (NDw s c) /\
+  own_out net lays' dw < own_out net lays dw /\
+  ein_of net lays' false dw == ein_of net lays false dw /\
+  ein_of net lays' true dw < ein_of net lays true dw.
+Proof. exact net_pruning_behind_depthwise_refuted. Qed.
+Theorem C05_net_pruning_input_group_refuted : exists net lays lays' dw c s,
+  wf net = true /\ nth_error net dw = Some (NDw s c) /\ nth_error net s = Some (NIn c) /\
+  own_out net lays' dw < own_out net lays dw /\
+  ein_of net lays' false dw == ein_of net lays false dw /\
+  ein_of net lays' true dw < ein_of net lays true dw.
+Proof. exact net_pruning_input_group_refuted. Qed.
+
+(* non-vacuity, network level: conv 3->4 (3x3, 4x4 map) -> relu -> flatten(16) -> linear 64->2, per-layer search,
+   selected (in, w) bits (8, 4) and (8, 2): 3*3*3*4*4 + 64*2*2 *)
+Example C05_net_example :
+  let l1 := mkLay [3; 3; 4; 4] [2; 8] (onehotQ 1 2) [4; 8] false (onehotQ 0 2) [] None in
+  let l2 := mkLay [1; 1; 1; 1] [2; 8] (onehotQ 1 2) [2; 4] false (onehotQ 0 2) [] None in
+  let net := [NIn 3; NConv 0 3 4; NProp 1; NFlat 2 16; NLin 3 64 2] in
+  mps_net_cost net [no_lay; l1; no_lay; no_lay; l2] params_bit false == 3 * 3 * 3 * 4 * 4 + 64 * 2 * 2 /\
+  onehot_layers net [no_lay; l1; no_lay; no_lay; l2] (fun _ => 1%nat) (fun _ => 0%nat) /\
+  feeds net 1 3 (1 * inject_Z 16).
+Proof.
+  intros l1 l2 net. split; [vm_compute; reflexivity|split].
+  - intros i nd t E T. destruct i as [|[|[|[|[|k]]]]]; simpl in E; try (destruct k; discriminate);
+      inversion E; subst; simpl in T; try discriminate; vm_compute; repeat split; try reflexivity; lia.
+  - change (inject_Z 16) with (inject_Z (Z.of_nat 16)). eapply feeds_flat; [reflexivity|]. eapply feeds_prop; [reflexivity|].
+    eapply feeds_here; [reflexivity|]. left. reflexivity.
+Qed.
+
 Print Assumptions C05_table_cost_onehot.
 Print Assumptions C05_mps_cost_onehot.
 Print Assumptions C05_params_bit_exact.
@@ -110,3 +186,12 @@ Print Assumptions C05_perchannel_cost_formula.
 Print Assumptions C05_perchannel_exact_nozero.
 Print Assumptions C05_perchannel_zero_scaled.
 Print Assumptions C05_perchannel_zero_refuted.
+Print Assumptions C05_net_cost_params_exact.
+Print Assumptions C05_net_cost_ops_exact.
+Print Assumptions C05_net_cost_params_exact_perchannel.
+Print Assumptions C05_net_cost_ops_exact_perchannel.
+Print Assumptions C05_ein_feeds.
+Print Assumptions C05_net_producer_pruning_lowers_consumer.
+Print Assumptions C05_net_producer_pruning_lowers_consumer_cost.
+Print Assumptions C05_net_pruning_behind_depthwise_refuted.
+Print Assumptions C05_net_pruning_input_group_refuted.
